@@ -5,8 +5,8 @@ import Dmn.Lemmas.TemporalLit
 
 About `Dmn.Temporal` (model of the literal recognisers, validators and `Display` printers of
 `feel/src/temporal/*`).  `zk` is the zone-database parameter ("this name is known").
-Fractional seconds are exact in the model; the code's `f64` route is compared by the
-correspondence run (findings F23-*).
+Fractional seconds are exact in the model and, since the repair of F23-f64, in the code
+(`fraction_to_nanoseconds`); the correspondence run compares them on every case.
 
 Where the unchanged code violates the full statement, the full statement is kept in a comment,
 `…_partial` carries the excluding hypothesis and `…_counterexample` proves the violation at a
@@ -16,57 +16,51 @@ witness that the correspondence run re-observes on the real code.
 namespace Dmn.C14
 open Dmn.Cal Dmn.Temporal
 
-/-- Years written with four to nine digits, of either sign (what `DATE_PATTERN` can read). -/
-def YearReadable (y : Int) : Prop :=
-  (1000 ≤ y ∧ y ≤ 999999999) ∨ (-999999999 ≤ y ∧ y ≤ -1000)
-
 /-! ## Round trips: `parse (print v) = v` -/
 
--- FULL STATEMENT (not provable of the current code, findings F13-lit-year, F13-print-year):
---   ∀ d, isValidDate d.y d.m d.d → parseDate (printDate d) = some d
---   (every year −999999999…999999999, in particular |year| < 1000)
-/-- The text of a date reads back as that date. -/
-theorem date_roundtrip_partial (d : Date) (hy : YearReadable d.y)
-    (hv : isValidDate d.y d.m d.d = true) : parseDate (printDate d) = some d :=
-  parseDate_printDate d hy hv
+/-- The text of a date reads back as that date, for every valid date of every year
+−999999999…999999999 (full strength since the repair of F13-lit-year and F13-print-year). -/
+theorem date_roundtrip (d : Date) (hv : isValidDate d.y d.m d.d = true) :
+    parseDate (printDate d) = some d :=
+  parseDate_printDate d hv
 
-example : YearReadable (-999999999) ∧ isValidDate (-999999999) 2 28 = true := by
-  refine ⟨Or.inr ⟨by decide, by decide⟩, by decide⟩
+example : isValidDate (-999999999) 2 28 = true ∧ isValidDate 0 2 29 = true := by decide
 
-/-- Witnesses: year 999 prints as `0999-01-01`, year −1 as `-001-01-01`; neither reads back. -/
-theorem date_roundtrip_counterexample :
-    isValidDate 999 1 1 = true ∧ parseDate (printDate ⟨999, 1, 1⟩) = none ∧
-    printDate ⟨-1, 1, 1⟩ = ['-', '0', '0', '1', '-', '0', '1', '-', '0', '1'] ∧
-    parseDate (printDate ⟨-1, 1, 1⟩) = none := by decide
+/-- Regression witnesses: year 999 prints as `0999-01-01`, year −1 as `-0001-01-01`; both read
+back. -/
+theorem date_roundtrip_small_years :
+    parseDate (printDate ⟨999, 1, 1⟩) = some ⟨999, 1, 1⟩ ∧
+    printDate ⟨-1, 1, 1⟩ = ['-', '0', '0', '0', '1', '-', '0', '1', '-', '0', '1'] ∧
+    parseDate (printDate ⟨-1, 1, 1⟩) = some ⟨-1, 1, 1⟩ ∧
+    parseDate ['0', '0', '0', '0', '-', '0', '1', '-', '0', '1'] = some ⟨0, 1, 1⟩ := by decide
 
--- FULL STATEMENT (not provable of the current code, finding F13-sign):
---   the same for every offset −14:59:59…+14:59:59, i.e. without `(0 < o ∨ o ≤ -3600)`
-/-- The text of a time (0–9 fraction digits, any readable zone) reads back as that time:
-fraction to the nanosecond, offset with its sign and seconds, zone name. -/
-theorem time_roundtrip_partial (zk : List Char → Bool) (t : Time)
+/-- The text of a time (0–9 fraction digits, any readable zone: UTC, local, a known name, every
+non-zero offset −14:59:59…+14:59:59) reads back as that time: fraction to the nanosecond, offset
+with its sign and seconds, zone name. (Full strength for offsets since the repair of F13-sign.) -/
+theorem time_roundtrip (zk : List Char → Bool) (t : Time)
     (hv : isValidTime t.h t.mi t.s = true) (hns : t.ns < 1000000000)
     (hz : ZoneReadable zk t.z) : parseTime zk (printTime t) = some t :=
   parseTime_printTime zk t hv hns hz
 
-example : ZoneReadable (fun _ => true) (.offset (-53999)) ∧ ZoneReadable (fun _ => true) (.offset 1) ∧
+example : ZoneReadable (fun _ => true) (.offset (-53999)) ∧ ZoneReadable (fun _ => true) (.offset (-1)) ∧
     ZoneReadable (fun _ => true) (.zone ['E', 't', 'c', '/', 'U', 'T', 'C']) := by
-  refine ⟨⟨Or.inr (by decide), by decide, by decide⟩, ⟨Or.inl (by decide), by decide, by decide⟩,
+  refine ⟨⟨by decide, by decide, by decide⟩, ⟨by decide, by decide, by decide⟩,
     by decide, by decide, rfl⟩
 
-/-- Witness: `10:00:00-00:30` prints as `10:00:00+00:30` and reads back an hour away. -/
-theorem time_roundtrip_counterexample :
-    printTime ⟨10, 0, 0, 0, .offset (-1800)⟩ = ['1', '0', ':', '0', '0', ':', '0', '0', '+', '0', '0', ':', '3', '0'] ∧
+/-- Regression witness of F13-sign: `10:00:00-00:30` prints with its sign and reads back. -/
+theorem time_roundtrip_small_negative_offset :
+    printTime ⟨10, 0, 0, 0, .offset (-1800)⟩ = ['1', '0', ':', '0', '0', ':', '0', '0', '-', '0', '0', ':', '3', '0'] ∧
     parseTime (fun _ => true) (printTime ⟨10, 0, 0, 0, .offset (-1800)⟩) =
-      some ⟨10, 0, 0, 0, .offset 1800⟩ := by decide
+      some ⟨10, 0, 0, 0, .offset (-1800)⟩ := by decide
 
--- FULL STATEMENT (not provable of the current code): as for dates and times, without
--- `YearReadable` and the sign condition inside `ZoneReadable`
-theorem datetime_roundtrip_partial (zk : List Char → Bool) (dt : DateTime)
-    (hy : YearReadable dt.date.y) (hd : isValidDate dt.date.y dt.date.m dt.date.d = true)
+
+/-- The text of a date and time reads back (full strength, as for dates and times). -/
+theorem datetime_roundtrip (zk : List Char → Bool) (dt : DateTime)
+    (hd : isValidDate dt.date.y dt.date.m dt.date.d = true)
     (hv : isValidTime dt.time.h dt.time.mi dt.time.s = true)
     (hns : dt.time.ns < 1000000000) (hz : ZoneReadable zk dt.time.z) :
     parseDateTime zk (printDateTime dt) = some dt :=
-  parseDateTime_printDateTime zk dt hy hd hv hns hz
+  parseDateTime_printDateTime zk dt hd hv hns hz
 
 example : parseDateTime (fun _ => true)
     (printDateTime ⟨⟨2021, 2, 28⟩, ⟨23, 59, 59, 999999999, .offset (-18000)⟩⟩) =
@@ -126,7 +120,7 @@ theorem ymdur_normal_form (n : Int) : n.natAbs % 12 < 12 ∧ (n.natAbs / 12) * 1
 day. -/
 theorem literal_exact_date (neg : Bool) (ys : List Char) (m d : Nat)
     (hd : ∀ c ∈ ys, isDigit c = true) (h4 : 4 ≤ ys.length) (h9 : ys.length ≤ 9)
-    (h0 : ys.head? ≠ some '0') (hm : m < 100) (hdd : d < 100) :
+    (h0 : ys.length = 4 ∨ ys.head? ≠ some '0') (hm : m < 100) (hdd : d < 100) :
     dateP ((if neg then ['-'] else []) ++ ys ++ '-' :: (pad2 m ++ '-' :: (pad2 d ++ []))) =
       some ((if neg then -(natOfDigits ys : Int) else (natOfDigits ys : Int), m, d), []) :=
   dateP_digits neg ys m d [] hd h4 h9 h0 hm hdd
@@ -159,34 +153,20 @@ example : zoneP (fun _ => false) ['-', '1', '4', ':', '5', '9', ':', '5', '9'] =
 
 /-! ## What is not valid is rejected -/
 
-theorem isValidDate_year_range {y : Int} {m d : Nat} (h : isValidDate y m d = true) :
-    -999999999 ≤ y ∧ y ≤ 999999999 := by
-  rw [isValidDate_unfold] at h
-  simp only [Bool.or_eq_true, Bool.and_eq_true, decide_eq_true_eq] at h
-  rcases h with hc | ⟨hr, _⟩
-  · simp only [chronoDateOk, Bool.and_eq_true] at hc
-    have h1 := of_decide_eq_true hc.1.1
-    have h2 := of_decide_eq_true hc.1.2
-    unfold chronoMinYear at h1
-    unfold chronoMaxYear at h2
-    omega
-  · exact hr
-
--- FULL STATEMENT (not provable of the current code, finding F13-day0-lit):
---   parseDate cs = some d → validDate d.y d.m d.d   (without `d.d ≠ 0`)
-/-- Whatever `date("…")` accepts is a day of the calendar — impossible dates are rejected —
-unless the day is written `00`. -/
-theorem rejects_invalid_date_partial (cs : List Char) (d : Date) (h : parseDate cs = some d)
-    (h0 : d.d ≠ 0) : validDate d.y d.m d.d = true := by
+/-- Whatever `date("…")` accepts is a day of the calendar: impossible dates are rejected (full
+strength since the repair of F13-day0-lit). -/
+theorem rejects_invalid_date (cs : List Char) (d : Date) (h : parseDate cs = some d) :
+    validDate d.y d.m d.d = true := by
   have hv := parseDate_valid h
   have hr := isValidDate_year_range hv
-  rw [← Dmn.Temporal.isValidDate_eq d.y d.m d.d hr.1 hr.2 (by omega)]
+  rw [← Dmn.Temporal.isValidDate_eq d.y d.m d.d hr.1 hr.2]
   exact hv
 
 example : parseDate ['2', '0', '2', '4', '-', '0', '2', '-', '2', '9'] = some ⟨2024, 2, 29⟩ := by decide
 
-theorem rejects_invalid_date_counterexample :
-    parseDate ['2', '0', '2', '1', '-', '0', '2', '-', '0', '0'] = some ⟨2021, 2, 0⟩ := by decide
+/-- Regression witness of F13-day0-lit. -/
+theorem rejects_invalid_date_day_zero :
+    parseDate ['2', '0', '2', '1', '-', '0', '2', '-', '0', '0'] = none := by decide
 
 /-- Whatever `time("…")` accepts has hour < 24, minute < 60, second < 60 and less than 10⁹
 nanoseconds. -/
@@ -224,6 +204,26 @@ theorem rejects_offset_hours (zk : List Char → Bool) (neg : Bool) (hh mm : Nat
   simp only [List.append_nil] at e2
   cases neg <;> simp [zoneP, e1, e2, h1]
 
+/-- Offset minutes above 59 are rejected, and so are offset seconds above 59 (full strength
+since the repair of F24-offmin). -/
+theorem rejects_offset_minutes_seconds (zk : List Char → Bool) (neg : Bool) (hh mm ss : Nat)
+    (h2 : hh < 100) (h3 : mm < 100) (h4 : ss < 100) (h : 59 < mm ∨ 59 < ss) :
+    zoneP zk ((if neg then '-' else '+') :: (pad2 hh ++ ':' :: (pad2 mm ++ ':' :: pad2 ss))) = some none ∧
+    (59 < mm → zoneP zk ((if neg then '-' else '+') :: (pad2 hh ++ ':' :: pad2 mm)) = some none) := by
+  have e1 := twoDigits_pad2 h2 (':' :: (pad2 mm ++ ':' :: pad2 ss))
+  have e1' := twoDigits_pad2 h2 (':' :: pad2 mm)
+  have e2 := twoDigits_pad2 h3 (':' :: pad2 ss)
+  have e2' := twoDigits_pad2 h3 []
+  have e3 := twoDigits_pad2 h4 []
+  simp only [List.append_nil] at e2' e3
+  constructor
+  · cases neg <;> simp [zoneP, e1, e2, e3] <;> omega
+  · intro hm
+    cases neg <;> simp [zoneP, e1', e2', hm]
+
+example : zoneP (fun _ => true) ['+', '0', '0', ':', '6', '0'] = some none ∧
+    parseTime (fun _ => true) ['1', '0', ':', '0', '0', ':', '0', '0', '+', '1', '4', ':', '6', '0'] = none := by decide
+
 /-- Concrete instances of the classes the property names: 30 February, 29 February of a
 non-leap year, month 13, hour 24, minute 60, second 60, offset 15:00, and malformed texts. -/
 theorem rejects_invalid_instances :
@@ -240,24 +240,33 @@ theorem rejects_invalid_instances :
     parseDtDur ['P'] = .reject ∧ parseDtDur ['P', 'T'] = .reject ∧ parseYmDur ['P', '1', 'M', '1', 'Y'] = .reject := by
   decide
 
--- FULL STATEMENT (not provable of the current code, findings F24-offmin, F25-dur-malformed,
--- F25-dur-skip): offset minutes/seconds of 60…99, `P1DT`, `PT0.S` and a component beyond u64
--- evaluate to null.
+/-- Regression witnesses of F25-dur-skip, F25-dur-wrap, F5-dur and the `P1DT` half of
+F25-dur-malformed: a component beyond the representable range, `2^63` months, an overflowing
+number of years and a `T` without time components are all rejected. -/
+theorem rejects_invalid_durations :
+    parseDtDur ['P', '1', 'D', 'T'] = .reject ∧
+    parseYmDur ['P', '9', '9', '9', '9', '9', '9', '9', '9', '9', '9', '9', '9', '9', '9', '9', '9', '9', '9', '9', '9', 'Y', '1', 'M'] = .reject ∧
+    parseYmDur ['P', '9', '2', '2', '3', '3', '7', '2', '0', '3', '6', '8', '5', '4', '7', '7', '5', '8', '0', '8', 'M'] = .reject ∧
+    parseYmDur ['P', '9', '9', '9', '9', '9', '9', '9', '9', '9', '9', '9', '9', '9', '9', '9', '9', '9', '9', 'Y'] = .reject ∧
+    parseDtDur ['P', '1', '8', '4', '4', '6', '7', '4', '4', '0', '7', '3', '7', '0', '9', '5', '5', '1', '6', '1', '6', 'D', 'T', '1', 'S'] = .reject := by
+  decide
+
+/-- No years-and-months literal panics or denotes a value outside `−i64::MAX … i64::MAX`
+months (full strength since the repair of F25-dur-wrap / F5-dur). -/
+theorem ymdur_total (cs : List Char) :
+    parseYmDur cs ≠ .panic ∧ ∀ n, parseYmDur cs = .ok n → -i64Max ≤ n ∧ n ≤ i64Max :=
+  parseYmDur_range cs
+
+-- FULL STATEMENT (not provable of the current code, finding F25-dur-malformed, pinned by the
+-- repository's tests): `PT0.S` (empty fraction) evaluates to null.
 theorem rejects_invalid_counterexample :
-    parseTime (fun _ => true) ['1', '0', ':', '0', '0', ':', '0', '0', '+', '0', '0', ':', '6', '0'] =
-      some ⟨10, 0, 0, 0, .offset 3600⟩ ∧
-    parseDtDur ['P', '1', 'D', 'T'] = .ok 86400000000000 ∧
-    parseDtDur ['P', 'T', '0', '.', 'S'] = .ok 0 ∧
-    parseYmDur ['P', '9', '9', '9', '9', '9', '9', '9', '9', '9', '9', '9', '9', '9', '9', '9', '9', '9', '9', '9', '9', 'Y', '1', 'M'] = .ok 1 ∧
-    parseDate ['0', '9', '9', '9', '-', '0', '1', '-', '0', '1'] = none := by decide
+    parseDtDur ['P', 'T', '0', '.', 'S'] = .ok 0 := by decide
 
 /-! ## `time(h, m, s[, offset])` from numbers -/
 
--- FULL STATEMENT (not provable of the current code, findings F27-time-round, F27-time-offset):
---   non-integral hours/minutes and offsets of 15 hours or more give null
 /-- On integral hours and minutes in range and seconds with up to nine decimals the constructor
 denotes exactly the written time. -/
-theorem time_from_numbers_exact_partial (h mi sec ns : Nat) (h1 : h < 24) (h2 : mi < 60)
+theorem time_from_numbers_exact (h mi sec ns : Nat) (h1 : h < 24) (h2 : mi < 60)
     (h3 : sec < 60) (h4 : ns < 1000000000) :
     timeFromNumbers ⟨h, 0⟩ ⟨mi, 0⟩ ⟨(sec * 1000000000 + ns : Nat), -9⟩ none =
       some ⟨h, mi, sec, ns, .localZ⟩ := by
@@ -271,12 +280,14 @@ theorem time_from_numbers_exact_partial (h mi sec ns : Nat) (h1 : h < 24) (h2 : 
     unfold Dec.secondsAndNanos
     simp
     constructor <;> omega
+  have i1 : (Dec.mk h 0).isInt = true := by unfold Dec.isInt; simp
+  have i2 : (Dec.mk mi 0).isInt = true := by unfold Dec.isInt; simp
   have r1 : (Dec.mk h 0).inRange 24 = true := by unfold Dec.inRange; simp; omega
   have r2 : (Dec.mk mi 0).inRange 60 = true := by unfold Dec.inRange; simp; omega
   have r3 : (Dec.mk ((sec * 1000000000 + ns : Nat) : Int) (-9)).inRange 60 = true := by
     unfold Dec.inRange; simp; omega
   unfold timeFromNumbers
-  simp only [r1, r2, r3, Bool.and_self, if_true, es, eh, em]
+  simp only [r1, r2, r3, i1, i2, Bool.and_self, if_true, es, eh, em]
   have hv : isValidTime h mi (sec % 256) = true := by
     rw [isValidTime_iff]; omega
   have : sec % 256 = sec := by omega
@@ -286,9 +297,46 @@ theorem time_from_numbers_exact_partial (h mi sec ns : Nat) (h1 : h < 24) (h2 : 
 example : timeFromNumbers ⟨23, 0⟩ ⟨59, 0⟩ ⟨59999999999, -9⟩ none = some ⟨23, 59, 59, 999999999, .localZ⟩ := by
   decide
 
-theorem time_from_numbers_counterexample :
-    timeFromNumbers ⟨115, -1⟩ ⟨0, 0⟩ ⟨0, 0⟩ none = some ⟨12, 0, 0, 0, .localZ⟩ ∧
-    timeFromNumbers ⟨10, 0⟩ ⟨0, 0⟩ ⟨0, 0⟩ (some 54000000000000) = some ⟨10, 0, 0, 0, .offset 54000⟩ := by
+/-- Whatever the constructor accepts has an integral hour and minute, a valid time of day and
+an offset within ±14:59:59; everything else is null (full strength since the repair of
+F27-time-round and F27-time-offset). -/
+theorem time_from_numbers_rejects (h mi s : Dec) (off : Option Int) (t : Time)
+    (ht : timeFromNumbers h mi s off = some t) :
+    h.isInt = true ∧ mi.isInt = true ∧ isValidTime t.h t.mi t.s = true ∧
+    (∀ n, off = some n → -53999 ≤ Int.tdiv n 1000000000 ∧ Int.tdiv n 1000000000 ≤ 53999) := by
+  unfold timeFromNumbers at ht
+  split at ht
+  · rename_i hc
+    simp only [Bool.and_eq_true] at hc
+    refine ⟨hc.1.2, hc.2, ?_, ?_⟩
+    · cases off with
+      | none =>
+        simp only [] at ht
+        split at ht
+        · rename_i hv; injection ht with ht; subst ht; exact hv
+        · cases ht
+      | some n =>
+        simp only [] at ht
+        split at ht
+        · split at ht
+          · rename_i hv; injection ht with ht; subst ht; exact hv
+          · cases ht
+        · cases ht
+    · intro n hn
+      subst hn
+      simp only [] at ht
+      split at ht
+      · assumption
+      · cases ht
+  · cases ht
+
+/-- Regression witnesses of F27-time-round and F27-time-offset: null now. -/
+theorem time_from_numbers_rejects_instances :
+    timeFromNumbers ⟨115, -1⟩ ⟨0, 0⟩ ⟨0, 0⟩ none = none ∧
+    timeFromNumbers ⟨10, 0⟩ ⟨5, -1⟩ ⟨0, 0⟩ none = none ∧
+    timeFromNumbers ⟨10, 0⟩ ⟨0, 0⟩ ⟨0, 0⟩ (some 54000000000000) = none ∧
+    timeFromNumbers ⟨10, 0⟩ ⟨0, 0⟩ ⟨0, 0⟩ (some 172800000000000) = none ∧
+    timeFromNumbers ⟨10, 0⟩ ⟨0, 0⟩ ⟨0, 0⟩ (some (-53999000000000)) = some ⟨10, 0, 0, 0, .offset (-53999)⟩ := by
   decide
 
 end Dmn.C14
